@@ -9,6 +9,9 @@ import (
 	"flag"
 	"fmt"
 	"math/rand"
+	"sort"
+	"sync"
+	"sync/atomic"
 	"time"
 
 	"github.com/spf13/afero"
@@ -136,6 +139,80 @@ func runProfile(p profSpec, via string, maxTokens int) profLine {
 	return out
 }
 
+// runProfileConcurrent drains the profile with G goroutines released together (as G instances sharing one RPS
+// schedule do) and records the instants in ascending order: the multiset of tokens a profile hands out does not
+// depend on who asks, so the line must satisfy the same TraceProfile invariants as a sequential drain.
+func runProfileConcurrent(p profSpec, G int, maxTokens int) profLine {
+	out := profLine{profSpec: p, Dur: vt.Limbs(p.DurNs), Via: "concurrent", Ts: [][]int{}, After: [][]int{}, AfterOk: []bool{}}
+	s, err := p.build("ctor")
+	if err != nil {
+		out.Err = err.Error()
+		return out
+	}
+	out.Left0 = int(s.Left())
+	t0 := time.Unix(1700000000, 0)
+	s.Start(t0)
+	var gate int32
+	var wg sync.WaitGroup
+	toks := make([][]time.Time, G)
+	ends := make([][]time.Time, G)
+	for g := 0; g < G; g++ {
+		g := g
+		wg.Add(1)
+		go func() {
+			defer wg.Done()
+			for atomic.LoadInt32(&gate) == 0 {
+			}
+			for len(toks[g]) <= maxTokens {
+				t, ok := s.Next()
+				if !ok {
+					ends[g] = append(ends[g], t)
+					break
+				}
+				toks[g] = append(toks[g], t)
+			}
+			for i := 0; i < 2; i++ {
+				t, _ := s.Next()
+				ends[g] = append(ends[g], t)
+			}
+		}()
+	}
+	atomic.StoreInt32(&gate, 1)
+	wg.Wait()
+	var all []time.Time
+	for g := 0; g < G; g++ {
+		all = append(all, toks[g]...)
+	}
+	sort.Slice(all, func(i, j int) bool { return all[i].Before(all[j]) })
+	if len(all) > maxTokens {
+		out.Err = "more tokens than the driver's cap"
+		return out
+	}
+	for _, t := range all {
+		out.Ts = append(out.Ts, relLimbs(t, t0, &out.Neg))
+	}
+	// the finish instants reported to three different callers
+	for g := 0; g < G && len(out.After) < 3; g++ {
+		for _, t := range ends[g] {
+			if len(out.After) < 3 {
+				out.After = append(out.After, relLimbs(t, t0, &out.Neg))
+				out.AfterOk = append(out.AfterOk, false)
+			}
+		}
+	}
+	// every finish instant every caller saw must be the same one: record a disagreeing one instead of the third
+	for g := 0; g < G; g++ {
+		for _, t := range ends[g] {
+			if len(ends[0]) > 0 && !t.Equal(ends[0][0]) {
+				out.After[2] = relLimbs(t, t0, &out.Neg)
+			}
+		}
+	}
+	out.N = len(out.Ts)
+	out.LeftEnd = int(s.Left())
+	return out
+}
+
 func relLimbs(t, t0 time.Time, neg *bool) []int {
 	d := t.Sub(t0)
 	if d < 0 {
@@ -244,6 +321,20 @@ func profileMain(args []string) {
 			via = "config"
 		}
 		w.Emit(runProfile(p, via, *maxTok*2+10))
+		n++
+	}
+	// concurrent drains: step profiles with many levels (every level hand-over is contended), const, line
+	conc := []profSpec{
+		{Kind: "step", FromM: 1000000, ToM: 1300000, Step: 1, DurNs: int64(3500 * time.Microsecond)},
+		{Kind: "step", FromM: 1000000, ToM: 1300000, Step: 1, DurNs: int64(3500 * time.Microsecond)},
+		{Kind: "step", FromM: 1000000, ToM: 1300000, Step: 1, DurNs: int64(3500 * time.Microsecond)},
+		{Kind: "step", FromM: 2000000, ToM: 2600000, Step: 2, DurNs: int64(2500 * time.Microsecond)},
+		{Kind: "const", FromM: 7000000, ToM: 7000000, DurNs: int64(200 * time.Millisecond)},
+		{Kind: "line", FromM: 0, ToM: 20000000, DurNs: int64(300 * time.Millisecond)},
+		{Kind: "once", Times: 500},
+	}
+	for _, p := range conc {
+		w.Emit(runProfileConcurrent(p, 8, 40000))
 		n++
 	}
 	fmt.Printf("{\"profiles\":%d,\"skipped\":%d}\n", n, skipped)
